@@ -40,6 +40,24 @@ type c14Case struct {
 	Instances []*jv.V        `json:"instances"`
 	Choices   [][]int        `json:"choices"`
 	Ops       []string       `json:"ops"` // "resolve" | "marshal" | "validate:<i>"
+	// Fixed[i] > 0: instance i is built as c14FixedTypes[Fixed[i]-1] when that type can hold it
+	// (the plain typed containers a Go caller passes most often).
+	Fixed []int `json:"fixed,omitempty"`
+}
+
+var c14FixedTypes = []reflect.Type{
+	reflect.TypeFor[[]string](), reflect.TypeFor[[]int](), reflect.TypeFor[[]float64](), reflect.TypeFor[map[string]string](),
+	reflect.TypeFor[[][]string](), reflect.TypeFor[map[string][]string](), reflect.TypeFor[[]map[string]any](),
+}
+
+func (c *c14Case) build(i int) any {
+	b := &repr.Builder{C: &repr.Script{Seq: c.Choices[i]}}
+	if i < len(c.Fixed) && c.Fixed[i] > 0 && c.Fixed[i] <= len(c14FixedTypes) {
+		if x, ok := b.BuildAs(c.Instances[i], c14FixedTypes[c.Fixed[i]-1]); ok {
+			return x
+		}
+	}
+	return b.Build(c.Instances[i])
 }
 
 var digestOut *bufio.Writer
@@ -97,9 +115,9 @@ func checkC14(c *c14Case, rec *ev.Recorder) (fl *failure, digest string) {
 		}
 		insts := make([]any, len(c.Instances))
 		instTwins := make([]any, len(c.Instances))
-		for i, v := range c.Instances {
-			insts[i] = (&repr.Builder{C: &repr.Script{Seq: c.Choices[i]}}).Build(v)
-			instTwins[i] = (&repr.Builder{C: &repr.Script{Seq: c.Choices[i]}}).Build(v)
+		for i := range c.Instances {
+			insts[i] = c.build(i)
+			instTwins[i] = c.build(i)
 		}
 		pure := func(after string) *failure {
 			if !reflect.DeepEqual(s, twin) {
@@ -364,7 +382,7 @@ func TestC14(t *testing.T) {
 			if rapid.IntRange(0, 3).Draw(t, "d7") == 0 {
 				d = refmodel.D7
 			}
-			lens := rapid.SampledFrom([]sgen.Lens{sgen.LensObject, sgen.LensObject, sgen.LensUneval, sgen.LensAny}).Draw(t, "lens")
+			lens := rapid.SampledFrom([]sgen.Lens{sgen.LensObject, sgen.LensObject, sgen.LensUneval, sgen.LensAny, sgen.LensArray, sgen.LensString}).Draw(t, "lens")
 			c.Doc = sgen.Draw(t, sgen.Opts{Draft: d, MaxDepth: 3, Lens: lens})
 			c.Instances = sgen.Instances(t, c.Doc, 3)
 			if multiEntryMaps(c.Doc) > 0 {
@@ -372,6 +390,17 @@ func TestC14(t *testing.T) {
 				c.Instances[2] = touchAllInstance(t, c.Doc, 2)
 			}
 			stripUnsafeMultipleOf(c.Doc, c.Instances)
+			if lens == sgen.LensArray || lens == sgen.LensString || rapid.IntRange(0, 3).Draw(t, "plainlists") == 0 {
+				// plain typed lists in an order that is neither ascending nor descending, with and
+				// without a repeated element
+				lists := []string{`["b","a","c"]`, `["b","a","b"]`, `[3,1,2]`, `[2.5,-1,2.5,0]`, `[["b","a"],["a"]]`, `{"k":["z","y","z"]}`, `["b","","a"]`}
+				v, _ := jv.Parse(rapid.SampledFrom(lists).Draw(t, "plainlist"))
+				c.Instances[1] = v
+				c.Fixed = []int{0, 1 + rapid.IntRange(0, len(c14FixedTypes)-1).Draw(t, "fixedtype"), 0}
+				if c.Doc.K == jv.Obj && !c.Doc.Has("uniqueItems") && rapid.Bool().Draw(t, "adduniqueitems") {
+					c.Doc.Set("uniqueItems", jv.BoolV(true))
+				}
+			}
 		}
 		for _, v := range c.Instances {
 			l := &repr.Logger{In: repr.RapidChooser{T: t}}
